@@ -1,12 +1,193 @@
 /-
-C08 — memory pool ordering, capacity, solvency and conflict invariants.
-Property theorems only (helper lemmas live in Proofs/Mempool*.lean).
--/
-import NeoModel.Proofs.MempoolBasic
-namespace NeoModel.Mempool
+C08 — memory pool ordering, capacity, solvency and conflict invariants; a failed Add changes nothing.
+Property theorems only (helper lemmas live in Proofs/Mempool*.lean). The model is
+NeoModel/Model/Mempool.lean (a line-by-line functional model of pkg/core/mempool/mem_pool.go).
 
-/-- C08 (ordering, insertion step): inserting at the index computed by `Add` (the "equal to the last
-→ append" shortcut or the binary search) keeps a sorted list sorted. -/
+Reading guide
+* `Inv U mp` (Proofs/MempoolInv.lean): not panicked ∧ |txs| ≤ capacity ∧ ids pairwise distinct ∧ txs sorted by
+  `Compare` (most prioritized first) ∧ no pooled tx names a pooled tx in Conflicts ∧ ≤ 1 pooled response per
+  oracle id ∧ verifiedMap / conflicts / oracleResp / fees are exactly what the list determines
+  (fees: cached feeSum = Σ fees of the payer's pooled txs ≤ cached balance).
+* `U` is the universe of transactions offered to the pool; `WF U` says ids behave like hashes
+  (id determines the transaction, no transaction repeats a Conflicts hash, no two name each other).
+* Every operation brings its own `Feer`; balances may differ from call to call.
+-/
+import NeoModel.Proofs.MempoolRun
+namespace NeoModel.Mempool.C08
+open NeoModel.Mempool
+
+/-! ## 1. The invariant holds in every reachable state -/
+
+/-- `New` establishes the invariant. -/
+theorem inv_new (U : Tx → Prop) (c : Nat) : Inv U (new c) := Mempool.inv_new U c
+
+/-- `Add` (successful or not) preserves the invariant. -/
+theorem inv_add {U : Tx → Prop} (hw : WF U) {mp : Pool} (hi : Inv U mp) {t : Tx} (ht : U t) (feer : Feer) :
+    Inv U (add mp t feer).1 := Mempool.inv_add hw hi ht feer
+
+/-- `Remove` preserves the invariant and removes exactly the named transaction. -/
+theorem inv_remove {U : Tx → Prop} (hw : WF U) {mp : Pool} (hi : Inv U mp) (h : Nat) :
+    Inv U (remove mp h) ∧ (remove mp h).txs = mp.txs.filter (fun t => t.id != h) :=
+  ⟨(inv_removeInternal hw hi h).1, (inv_removeInternal hw hi h).2.1⟩
+
+/-- `RemoveStale` (any filter, any new balances, any new policy value) preserves the invariant and only drops. -/
+theorem inv_removeStale {U : Tx → Prop} (hw : WF U) {mp : Pool} (hi : Inv U mp) (isOK : Tx → Bool) (feer : Feer) :
+    Inv U (removeStale mp isOK feer) ∧ (removeStale mp isOK feer).txs.Sublist mp.txs :=
+  ⟨(Mempool.inv_removeStale hw hi isOK feer).1, (Mempool.inv_removeStale hw hi isOK feer).2.1⟩
+
+/-- `Verify` preserves the invariant (it may only fill the balance cache). -/
+theorem inv_verify {U : Tx → Prop} (hw : WF U) {mp : Pool} (hi : Inv U mp) {t : Tx} (ht : U t) (feer : Feer) :
+    Inv U (verify mp t feer).1 ∧ CacheOnly mp (verify mp t feer).1 t feer :=
+  ⟨(verify_spec hw hi ht feer).2, (verify_spec hw hi ht feer).1⟩
+
+/-- C08, main theorem: after ANY sequence of Add / Remove / RemoveStale / Verify, with arbitrary transactions of
+the universe, arbitrary capacity and an arbitrary `Feer` at every call, the invariant holds. -/
+theorem inv_reachable {U : Tx → Prop} (hw : WF U) (c : Nat) (ops : List Op) (ho : OpsIn U ops) :
+    Inv U (run c ops) := Mempool.inv_reachable hw c ops ho
+
+/-- `item.Compare` is the order of the property statement: `a` may stand before `b` iff
+(high-priority, fee per byte, network fee) of `b` is lexicographically ≤ that of `a`. -/
+theorem compare_is_key_order (a b : Tx) : ge a b ↔ keyLe (key b) (key a) := compare_nonneg_iff a b
+
+/-- The clauses of C08 spelled out for every reachable pool. -/
+theorem reachable_unpacked {U : Tx → Prop} (hw : WF U) (c : Nat) (ops : List Op) (ho : OpsIn U ops) :
+    let mp := run c ops
+    mp.panicked = false ∧
+    -- each transaction at most once
+    (mp.txs.map (·.id)).Nodup ∧
+    -- capacity
+    mp.txs.length ≤ c ∧
+    -- ordered by priority
+    mp.txs.Pairwise (fun a b => keyLe (key b) (key a)) ∧
+    -- no two pooled transactions conflict
+    (∀ a ∈ mp.txs, ∀ b ∈ mp.txs, a.id ∉ b.conflicts) ∧
+    -- at most one response per oracle request
+    (∀ a ∈ mp.txs, ∀ b ∈ mp.txs, ∀ i, a.oracle = some i → b.oracle = some i → a = b) ∧
+    -- the hash index and the Conflicts index are functions of the list
+    (∀ h, containsKey mp h = true ↔ ∃ t ∈ mp.txs, t.id = h) ∧
+    (∀ t, hasConflicts mp t = true ↔
+      ((∃ e ∈ mp.txs, e.id = t.id) ∨ (∃ e ∈ mp.txs, t.id ∈ e.conflicts) ∨ (∃ e ∈ mp.txs, e.id ∈ t.conflicts))) ∧
+    -- fee bookkeeping: cached sums are exact and within the cached balance
+    (∀ q f, mp.fees q = some f → f.feeSum = sumFees q mp.txs ∧ sumFees q mp.txs ≤ f.balance) ∧
+    (∀ q, mp.fees q = none → sumFees q mp.txs = 0) := by
+  intro mp
+  have hi : Inv U mp := Mempool.inv_reachable hw c ops ho
+  have hcap : mp.capacity = c := capacity_run hw c ops ho
+  have hck : ∀ h, containsKey mp h = true ↔ ∃ t ∈ mp.txs, t.id = h := by
+    intro h
+    unfold containsKey
+    constructor
+    · intro hs
+      cases hv : mp.vmap h with
+      | none => rw [hv] at hs; cases hs
+      | some t => exact ⟨t, (hi.vmap h t).mp hv⟩
+    · intro ⟨t, ht, hid⟩
+      rw [(hi.vmap h t).mpr ⟨ht, hid⟩]; rfl
+  refine ⟨hi.noPanic, hi.list.nodup, by rw [← hcap]; exact hi.cap, ?_, hi.list.noConf, hi.list.orcUniq, hck, ?_, ?_, ?_⟩
+  · exact hi.list.sorted.imp (fun h => (compare_nonneg_iff _ _).mp h)
+  · intro t
+    unfold hasConflicts
+    have h1 := hck t.id
+    unfold containsKey at h1
+    have h2 : (mp.conflicts t.id).isSome = true ↔ ∃ e ∈ mp.txs, t.id ∈ e.conflicts := by
+      have := hi.conf t.id
+      cases hc : mp.conflicts t.id with
+      | none =>
+        rw [hc] at this; simp only [ConfEntry] at this
+        constructor
+        · intro h; cases h
+        · intro ⟨e, he, hh⟩; exact absurd hh (this e he)
+      | some l =>
+        rw [hc] at this; simp only [ConfEntry] at this
+        constructor
+        · intro _
+          obtain ⟨hne, _, hmem⟩ := this
+          cases l with
+          | nil => exact absurd rfl hne
+          | cons x r =>
+            obtain ⟨e, he, _, hh⟩ := (hmem x).mp List.mem_cons_self
+            exact ⟨e, he, hh⟩
+        · intro _; rfl
+    have h3 : t.conflicts.any (fun h => (mp.vmap h).isSome) = true ↔ ∃ e ∈ mp.txs, e.id ∈ t.conflicts := by
+      rw [List.any_eq_true]
+      constructor
+      · intro ⟨h, hh, hs⟩
+        obtain ⟨e, he, hid⟩ := (hck h).mp hs
+        exact ⟨e, he, by rw [hid]; exact hh⟩
+      · intro ⟨e, he, hh⟩
+        exact ⟨e.id, hh, (hck e.id).mpr ⟨e, he, rfl⟩⟩
+    rw [Bool.or_eq_true, Bool.or_eq_true, h1, h2, h3, or_assoc]
+  · intro q f hq
+    have := hi.fees q; rw [hq] at this; simp only [FeeEntry] at this
+    exact ⟨this.1, by omega⟩
+  · intro q hq
+    have := hi.fees q; rw [hq] at this; exact this
+
+/-! ## 2. Solvency against the balances the `Feer` reports -/
+
+/-- C08 solvency: if every operation since the last `RemoveStale` (or since `New`) read its balances from the
+same `Feer` `F` — balances change only with a block, and a block triggers `RemoveStale` — then for every payer
+(ordinary sender `(a, 0)` or Notary depositor `(Notary, d)`) the system + network fees of its pooled
+transactions sum to at most its balance. Operations before that `RemoveStale` are arbitrary. -/
+theorem solvent_reachable {U : Tx → Prop} (hw : WF U) (c : Nat) (pre post : List Op) (F : Feer)
+    (ho : OpsIn U (pre ++ post)) (hF : ∀ op ∈ post, UsesFeer F op)
+    (hpre : pre = [] ∨ ∃ pre' isOK, pre = pre' ++ [Op.removeStale isOK F]) (q : Payer) :
+    sumFees q (run c (pre ++ post)).txs ≤ F.balance q.1 q.2 := by
+  apply solvent_of_balLe (Mempool.inv_reachable hw c _ ho)
+  unfold run
+  rw [List.foldl_append]
+  apply balLe_foldl F post _ hF
+  rcases hpre with h | ⟨pre', isOK, h⟩
+  · subst h; intro q f hf; cases hf
+  · subst h
+    rw [List.foldl_append]
+    exact balLe_removeStale F _ isOK
+
+/-! ## 3. A failed addition leaves the pool unchanged -/
+
+/-- C08: if `Add` returns an error (any of ErrDup, ErrConflictsAttribute, ErrInsufficientFunds, ErrConflict,
+ErrOracleResponse, ErrOOM) on a pool satisfying the invariant, then the list, the hash index, the Conflicts
+index, the oracle index, capacity and policy are unchanged, nothing panicked, and `fees` is unchanged except
+that the new transaction's payer may have received the cache entry (balance from the `Feer`, fee sum 0) —
+exactly what a later lookup would compute anyway (`add_fail_feeview`). -/
+theorem add_fail_unchanged {U : Tx → Prop} (hw : WF U) {mp : Pool} (hi : Inv U mp) {t : Tx} (ht : U t) (feer : Feer)
+    {mp' : Pool} {e : Err} (h : add mp t feer = (mp', some e)) : CacheOnly mp mp' t feer :=
+  ((add_spec hw hi ht feer).1 mp' e h).1
+
+/-- ... and the balance/fee-sum the pool uses for any payer (`getPayerFee` with the same `Feer`) is the same
+before and after the failed `Add`. -/
+theorem add_fail_feeview {U : Tx → Prop} (hw : WF U) {mp : Pool} (hi : Inv U mp) {t : Tx} (ht : U t) (feer : Feer)
+    {mp' : Pool} {e : Err} (h : add mp t feer = (mp', some e)) (q : Payer) :
+    (getPayerFee q mp'.fees feer).1 = (getPayerFee q mp.fees feer).1 := by
+  obtain ⟨_, _, _, _, _, _, _, hf⟩ := add_fail_unchanged hw hi ht feer h
+  rcases hf with hf | ⟨hnone, hf⟩
+  · rw [hf]
+  · rw [hf]
+    by_cases hq : q = payerOf t
+    · subst hq
+      unfold getPayerFee
+      rw [upd_same, hnone]
+    · unfold getPayerFee
+      rw [upd_other _ _ hq]
+
+/-! ## 4. Only conflicting transactions, a replaced oracle response and the lowest-priority entry disappear -/
+
+/-- C08: when `Add` succeeds, the new transaction is pooled, nothing else is new, and every transaction `x`
+that disappeared either names / is named by the new transaction in a Conflicts attribute, or is the response
+to the same oracle request with a smaller network fee, or was evicted for capacity — and then the resulting
+pool is full, `x` is not above any remaining entry, and the new transaction is strictly above `x`. -/
+theorem evicts_lowest {U : Tx → Prop} (hw : WF U) {mp : Pool} (hi : Inv U mp) {t : Tx} (ht : U t) (feer : Feer)
+    {mp' : Pool} (h : add mp t feer = (mp', none)) :
+    t ∈ mp'.txs ∧ (∀ x ∈ mp'.txs, x = t ∨ x ∈ mp.txs) ∧
+    (∀ x ∈ mp.txs, x ∉ mp'.txs →
+      t.id ∈ x.conflicts ∨ x.id ∈ t.conflicts ∨
+      (x.oracle = t.oracle ∧ t.oracle ≠ none ∧ x.netFee < t.netFee) ∨
+      (mp'.txs.length = mp'.capacity ∧ (∀ y ∈ mp'.txs, ge y x) ∧ 0 < compare t x)) := by
+  obtain ⟨_, _, _, h4, h5, h6⟩ := (add_spec hw hi ht feer).2 mp' h
+  exact ⟨h4, h5, h6⟩
+
+/-- C08 (ordering, insertion step): inserting at the index computed by `Add` (the "equal to the last → append"
+shortcut or the binary search `sort.Search`) keeps a sorted list sorted. -/
 theorem insert_keeps_sorted (l : List Tx) (t : Tx) (hs : Sorted l) :
     Sorted (l.take (insertIdx l t) ++ [t] ++ l.drop (insertIdx l t)) := by
   obtain ⟨_, h2, h3⟩ := insertIdx_spec l t hs
@@ -28,12 +209,63 @@ theorem insert_keeps_sorted (l : List Tx) (t : Tx) (hs : Sorted l) :
     · exact h2 a haa
     · exact hab a haa b hbb
 
--- non-vacuity: a three-element sorted list and a transaction that lands in the middle
-example :
-    let a : Tx := { id := 0, sysFee := 0, netFee := 300, size := 100, signers := [2], high := false, conflicts := [], oracle := none }
-    let b : Tx := { a with id := 1, netFee := 200 }
-    let c : Tx := { a with id := 2, netFee := 100 }
-    let t : Tx := { a with id := 3, netFee := 250 }
-    insertIdx [a, b, c] t = 1 := by decide
+/-! ## Non-vacuity: concrete instances meeting the hypotheses -/
 
-end NeoModel.Mempool
+section Examples
+
+/-- a finite universe given by a list is well-formed if three decidable checks pass -/
+theorem wf_of_list (L : List Tx)
+    (h1 : ∀ a ∈ L, ∀ b ∈ L, a.id = b.id → a = b)
+    (h2 : ∀ a ∈ L, a.conflicts.Nodup)
+    (h3 : ∀ a ∈ L, ∀ b ∈ L, a.id ∈ b.conflicts → b.id ∉ a.conflicts) : WF (· ∈ L) :=
+  ⟨fun a b ha hb => h1 a ha b hb, h2, fun a b ha hb => h3 a ha b hb⟩
+
+-- two Notary depositors (accounts 5 and 6; account 1 is the Notary contract) and an ordinary sender 2
+def a0 : Tx := { id := 0, sysFee := 0, netFee := 15, size := 100, signers := [1, 5], high := false, conflicts := [], oracle := none }
+def b0 : Tx := { id := 1, sysFee := 0, netFee := 10, size := 100, signers := [1, 6], high := false, conflicts := [], oracle := none }
+/-- depositor 5's second transaction conflicts with depositor 6's (they share the Notary signer) -/
+def a1 : Tx := { id := 2, sysFee := 0, netFee := 12, size := 109, signers := [1, 5], high := false, conflicts := [1], oracle := none }
+def c0 : Tx := { id := 3, sysFee := 5, netFee := 400, size := 100, signers := [2], high := false, conflicts := [], oracle := some 7 }
+def c1 : Tx := { id := 4, sysFee := 5, netFee := 900, size := 100, signers := [2, 1], high := true, conflicts := [0], oracle := some 7 }
+def univ : List Tx := [a0, b0, a1, c0, c1]
+def F : Feer := { balance := fun p s => if p = 1 ∧ s = 5 then 20 else if p = 1 ∧ s = 6 then 100 else if p = 2 then 2000 else 0,
+                  feePerByte := 0 }
+def F' : Feer := { F with balance := fun p s => if p = 1 ∧ s = 5 then 14 else F.balance p s, feePerByte := 1 }
+
+theorem wf_univ : WF (· ∈ univ) := wf_of_list univ (by decide) (by decide) (by decide)
+
+def demoOps : List Op :=
+  [.add a0 F, .add b0 F, .add a1 F, .add c0 F, .verify c1 F, .add c1 F, .remove 1, .removeStale (fun _ => true) F', .add b0 F']
+
+theorem demo_in : OpsIn (· ∈ univ) demoOps := by
+  intro op hop
+  simp only [demoOps, List.mem_cons, List.not_mem_nil, or_false] at hop
+  rcases hop with rfl | rfl | rfl | rfl | rfl | rfl | rfl | rfl | rfl <;> simp [univ]
+
+-- inv_reachable / reachable_unpacked apply to a run that exercises Notary payers, a Conflicts replacement,
+-- an oracle replacement, eviction at capacity 3, a removal and a refresh with changed balances and policy
+example : Inv (· ∈ univ) (run 3 demoOps) := inv_reachable wf_univ 3 demoOps demo_in
+example : (run 3 demoOps).txs.map (·.id) = [4, 1] := by decide
+-- the regression of the fixed defect eb15b2a: depositor 5 has balance 20 and 15 pooled; its new transaction
+-- (fee 12) conflicting with depositor 6's transaction (fee 10) is rejected with ErrConflict
+example : (add (run 3 [.add a0 F, .add b0 F]) a1 F).2 = some .conflict := by decide
+-- add_fail_unchanged applies to it (hypotheses met by a reachable state)
+example : CacheOnly (run 3 [.add a0 F, .add b0 F]) (add (run 3 [.add a0 F, .add b0 F]) a1 F).1 a1 F :=
+  add_fail_unchanged wf_univ
+    (inv_reachable wf_univ 3 [.add a0 F, .add b0 F] (by intro op hop; simp at hop; rcases hop with rfl | rfl <;> simp [univ]))
+    (by simp [univ]) F (e := .conflict) (Prod.ext rfl (by decide))
+-- evicts_lowest: capacity 2, pool [a0, b0] is full, c0 (fee per byte 4) evicts the last one (b0)
+example : ((add (run 2 [.add a0 F, .add b0 F]) c0 F).1.txs.map (·.id), (add (run 2 [.add a0 F, .add b0 F]) c0 F).2) = ([3, 0], none) := by
+  decide
+-- solvent_reachable: the suffix after the refresh uses F'
+example (q : Payer) : sumFees q (run 3 demoOps).txs ≤ F'.balance q.1 q.2 :=
+  solvent_reachable wf_univ 3
+    [.add a0 F, .add b0 F, .add a1 F, .add c0 F, .verify c1 F, .add c1 F, .remove 1, .removeStale (fun _ => true) F']
+    [.add b0 F'] F' demo_in (by intro op hop; simp at hop; subst hop; rfl)
+    (Or.inr ⟨[.add a0 F, .add b0 F, .add a1 F, .add c0 F, .verify c1 F, .add c1 F, .remove 1], fun _ => true, rfl⟩) q
+-- insert_keeps_sorted: a transaction that lands in the middle
+example : insertIdx [c1, c0, a0] { c0 with id := 9, netFee := 200 } = 2 := by decide
+
+end Examples
+
+end NeoModel.Mempool.C08
